@@ -170,8 +170,8 @@ class Ctx:
         return res
 
     # ------------------------------------------------------------ harness
-    def harness(self, race=False):
-        key = "race" if race else "plain"
+    def harness(self, race=False, cmd="harness"):
+        key = cmd + ("-race" if race else "-plain")
         if self._harness is None:
             self._harness = {}
         if key in self._harness:
@@ -182,23 +182,41 @@ class Ctx:
         open(os.path.join(b, "go.mod"), "w").write(gomod)
         shutil.copy(os.path.join(REPO, "go.sum"), os.path.join(b, "go.sum"))
         out = os.path.join(b, "harness")
-        cmd = ["go", "build", "-modfile=" + os.path.join(b, "go.mod"), "-tags", "verif", "-o", out]
+        gocmd = ["go", "build", "-modfile=" + os.path.join(b, "go.mod"), "-tags", "verif", "-o", out]
         if race:
-            cmd.append("-race")
-        cmd.append("./cmd/harness")
-        p = sh(cmd, cwd=HARNESS, env=GOENV, timeout=900, check=False)
+            gocmd.append("-race")
+        gocmd.append("./cmd/" + cmd)
+        p = sh(gocmd, cwd=HARNESS, env=GOENV, timeout=900, check=False)
         if p.returncode != 0:
             raise Inconclusive("harness build failed against %s:\n%s" % (REPO, p.stdout[-4000:]))
         self._harness[key] = out
         return out
 
-    def run_harness(self, args, timeout=600, race=False, env=None, check=True):
+    def run_harness(self, args, timeout=600, race=False, env=None, check=True, cmd="harness"):
         e = dict(GOENV)
         e["VERIF_SEED"] = str(self.seed)
         e["VERIF_TIER"] = self.tier
+        cur = os.path.join(self.scratch, "current-%d.json" % len(self.cov["tlc_runs"]))
+        e["VERIF_CURRENT"] = cur
         if env:
             e.update(env)
-        p = sh([self.harness(race=race)] + args, cwd=self.scratch, env=e, timeout=timeout, check=False)
+        p = sh([self.harness(race=race, cmd=cmd)] + args, cwd=self.scratch, env=e, timeout=timeout, check=False)
+        # crash attribution: a Go panic / fatal error that killed the harness while it was executing the
+        # case it last announced with hx.Current(...)
+        p.crash = None
+        if p.returncode != 0 and ("panic:" in p.stdout or "fatal error:" in p.stdout):
+            current = None
+            if os.path.exists(cur):
+                try:
+                    current = json.load(open(cur))
+                except Exception:
+                    current = None
+            m = re.search(r"^(panic:.*|fatal error:.*)$", p.stdout, re.M)
+            frames = [l.strip() for l in p.stdout.splitlines() if "sc-golang/pkg" in l or "sc-golang/internal" in l]
+            p.crash = {"current": current, "message": m.group(1) if m else "", "frames": frames[:6],
+                       "trace": p.stdout[-3000:]}
+            if not check:
+                return p
         if check and p.returncode != 0:
             raise Inconclusive("harness %s failed rc=%d:\n%s" % (args[:3], p.returncode, p.stdout[-4000:]))
         return p
